@@ -1,15 +1,24 @@
 /*@UNIT
 {
-  "property": "C02",
-  "unit": "chacha_decrypt",
-  "function": "csChacha20Poly1305IetfDecrypt",
-  "source": "matrixssl/cipherSuite.c",
-  "keep_bodies": ["psEncodeVersionMaj", "psEncodeVersionMin", "psEncodeVersion"],
-  "assumed": ["psChacha20Poly1305IetfDecrypt (model: records nonce, AAD, length; verdict chosen by the harness input; assumption: a real tag mismatch makes it return < 0)"],
-  "mode": "proof",
-  "why_proof": "all loops have constant bounds (8, 12, 13), fully unwound with unwinding assertions; the record is an allocation of exactly len bytes for EVERY 16-bit len (the record length field) (no loop of the function depends on len)",
-  "unwind": 14,
-  "native_replay": true
+ "property": "C02",
+ "unit": "chacha_decrypt",
+ "function": "csChacha20Poly1305IetfDecrypt",
+ "source": "matrixssl/cipherSuite.c",
+ "keep_bodies": [
+  "psEncodeVersionMaj",
+  "psEncodeVersionMin",
+  "psEncodeVersion"
+ ],
+ "assumed": [
+  "psChacha20Poly1305IetfDecrypt (model: records nonce, AAD, length; verdict chosen by the harness input; assumption: a real tag mismatch makes it return < 0)"
+ ],
+ "mode": "proof",
+ "why_proof": "all loops have constant bounds (8, 12, 13), fully unwound with unwinding assertions; the record is an allocation of exactly len bytes for EVERY 16-bit len (the record length field) (no loop of the function depends on len)",
+ "unwind": 14,
+ "native_replay": true,
+ "properties": [
+  "C10"
+ ]
 }
 @*/
 /* C02.U1  opening a TLS 1.2 ChaCha20-Poly1305 record (RFC 7905 s.2):
